@@ -87,23 +87,39 @@ End Drain.
    and consumed; a second 100-byte message (footprint 4 = n/2 lines, 100 <= 256 = half the ring's
    bytes) is in the known class and is refused, whatever number of retries / fetches follow *)
 Definition wit_pre : list op := [OAlloc 100; OWrite 0 [1; 2; 3]; OCommit; OFetch; ORMove].
+Definition wit_h : harness := fst (run (hinit 8) wit_pre).
+
+Lemma wit_w : wcur (hr wit_h) = 4. Proof. vm_compute. reflexivity. Qed.
+Lemma wit_r : rcur (hr wit_h) = 4. Proof. vm_compute. reflexivity. Qed.
+Lemma wit_a : h_alloc wit_h = None. Proof. vm_compute. reflexivity. Qed.
+Lemma wit_f : snd (step wit_h OFetch) = RFetch None. Proof. vm_compute. reflexivity. Qed.
+Lemma wit_inv : Inv 8 wit_h (snd (reach (hinit 8) [] wit_pre)).
+Proof.
+  unfold wit_h. rewrite <- (reach_run wit_pre (hinit 8) []). apply reach_inv; [lia|]. apply init_inv. lia.
+Qed.
+Lemma wit_refused : ~ accepts wit_h 100.
+Proof.
+  intros Acc.
+  destruct (drained_alloc 8 ltac:(lia) wit_h _ 4 100 wit_inv wit_w wit_r ltac:(lia)) as [Hiff _].
+  apply Hiff in Acc. vm_compute in Acc. apply Acc. reflexivity.
+Qed.
+Lemma wit_for_ever : forall ops, Forall (fun o => o = OAlloc 100 \/ o = OFetch) ops ->
+  Forall (fun r => r = RAlloc None \/ r = RFetch None) (snd (run wit_h ops)).
+Proof.
+  intros ops Hops.
+  exact (proj2 (refused_for_ever 8 ltac:(lia) wit_h _ 4 100 ops wit_inv wit_w wit_r ltac:(lia) wit_refused Hops)).
+Qed.
 
 Lemma drained_half_witness :
-  let h := fst (run (hinit 8) wit_pre) in
-  wcur (hr h) = 4 /\ rcur (hr h) = 4 /\ h_alloc h = None /\ snd (step h OFetch) = RFetch None /\
-  cal_cachelines 100 = 4 /\ 4 <= 8 / 2 /\ 100 <= (CL / 2) * 8 /\ in_known_class 8 4 100 = true /\
-  (forall ops, Forall (fun o => o = OAlloc 100 \/ o = OFetch) ops ->
-     Forall (fun r => r = RAlloc None \/ r = RFetch None) (snd (run h ops))).
+  exists n pre p nb,
+    let h := fst (run (hinit n) pre) in
+    wcur (hr h) = p /\ rcur (hr h) = p /\ h_alloc h = None /\ snd (step h OFetch) = RFetch None /\
+    cal_cachelines nb <= n / 2 /\ 1 <= nb <= (CL / 2) * n /\ in_known_class n p nb = true /\
+    (forall ops, Forall (fun o => o = OAlloc nb \/ o = OFetch) ops ->
+       Forall (fun r => r = RAlloc None \/ r = RFetch None) (snd (run h ops))).
 Proof.
-  set (h := fst (run (hinit 8) wit_pre)).
-  assert (I : Inv 8 h (snd (reach (hinit 8) [] wit_pre))).
-  { unfold h. rewrite <- (reach_run wit_pre (hinit 8) []). apply reach_inv; [lia|]. apply init_inv. lia. }
-  assert (W : wcur (hr h) = 4) by (vm_compute; reflexivity).
-  assert (R : rcur (hr h) = 4) by (vm_compute; reflexivity).
-  repeat split; auto; try (vm_compute; (reflexivity || discriminate)).
-  intros ops Hops.
-  assert (No : ~ accepts h 100).
-  { intros Acc. destruct (drained_alloc 8 ltac:(lia) h _ 4 100 I W R ltac:(lia)) as [Hiff _].
-    apply Hiff in Acc. vm_compute in Acc. apply Acc. reflexivity. }
-  exact (proj2 (refused_for_ever 8 ltac:(lia) h _ 4 100 ops I W R ltac:(lia) No Hops)).
+  exists 8, wit_pre, 4, 100. change (fst (run (hinit 8) wit_pre)) with wit_h. cbv zeta.
+  split; [exact wit_w|]. split; [exact wit_r|]. split; [exact wit_a|]. split; [exact wit_f|].
+  split; [vm_compute; discriminate|]. split; [split; vm_compute; discriminate|].
+  split; [vm_compute; reflexivity|]. exact wit_for_ever.
 Qed.
